@@ -207,6 +207,17 @@ def gen_world(rng, stream="regular"):
         # which sends the simulator into its preemption / migration code - outside the simulator model, see C05-SR3)
         if r4.random() < 0.2 and not policy.get("retract"):
             policy["runtimes"] = r4.choice([[0, 1, 2], [0, 3, 7], [1, 5, 30], [0, 0, 60]])
+    if stream == "profile":
+        # work profiles that have to be loaded (loading strategies in the description) and a policy that decides
+        # loads and evictions next to its task placements
+        policy = {"name": "RANDOM", "lookahead": policy.get("lookahead", 0) if pol == "RANDOM" else 0, "retract": False,
+                  "cancel_prob": rng.choice([0.0, 0.05]), "profile_prob": rng.choice([0.3, 0.6, 0.9])}
+        flags["scheduler_delay"] = 0
+        for pr in wl["profiles"]:
+            if rng.random() < 0.75:
+                pr["loading_strategies"] = [{"batch_size": 1, "runtime": rng.choice([0, 1, 3, 6]),
+                                             "resource_requirements": {f"{rng.choice(RES)}:any": rng.choice([0, 1, 1, 2])}}
+                                            for _ in range(rng.choice([1, 1, 2]))]
     return {"workers": gen_workers(rng), "workload": wl, "flags": flags, "policy": policy, "stream": stream, "max_steps": 3000}
 
 
